@@ -34,19 +34,35 @@ impl E2ECampaign {
     inner.resets = false;
     // the repeat request and a twin mapper are not observable end to end
     inner.en.c06 = false; inner.en.c09 = false;
+    // timer chords are part of what reaches the virtual keyboard end to end: make Special repeats common
+    inner.force_special = true;
     E2ECampaign { inner, quick_runs, thorough_runs }
   }
   pub fn generate(&self, seed: u64, thorough: bool) -> CaseE {
     let mut st = GenStats::default();
-    let mut a = self.inner.generate(seed, thorough, &mut st);
-    a.ops.retain(|o| matches!(o, Op::Ev(_)));
-    if a.ops.len() > 60 { a.ops.truncate(60); }
     let mut rng = Rng::new(crate::rng::mix(seed, 0xE2E));
+    // swarm: one run in eight is a long burst (70-150 events arriving in a few big batches), one in
+    // six holds many keys at once (up to 9), so that steps and batches get long
+    let burst = rng.chance(1, 8);
+    let many_held = rng.chance(1, 6);
+    let mut a = if burst || many_held {
+      let mut g = self.inner.generate(seed, thorough, &mut st);
+      let mut r2 = Rng::new(crate::rng::mix(seed, 0xB0B));
+      let mut ho = swarm_hist(&mut r2, thorough, true, false, g.dist);
+      if burst { ho.len = r2.range(70, 150); }
+      if many_held { ho.max_held = r2.range(5, 9); ho.intents = 3; }
+      ho.resets = false;
+      g.ops = gen_ops(&mut r2, &g.layout, &ho, &mut st);
+      g
+    } else { self.inner.generate(seed, thorough, &mut st) };
+    a.ops.retain(|o| matches!(o, Op::Ev(_)));
+    if a.ops.len() > 150 { a.ops.truncate(150); }
     let mut t = 0u64;
     let mut kbd = vec![];
+    let has_special = a.layout.mappings.iter().any(|m| matches!(m.repeat, Repeat::Special { .. }));
     for o in &a.ops {
       if let Op::Ev(e) = o {
-        t += match rng.below(10) { 0..=3 => 0, 4..=6 => rng.below(5000) as u64, 7..=8 => 20_000 + rng.below(80_000) as u64, _ => 150_000 + rng.below(400_000) as u64 };
+        t += if burst && !rng.chance(1, 20) { 0 } else if has_special && rng.chance(1, 4) { 150_000 + rng.below(400_000) as u64 } else { match rng.below(10) { 0..=3 => 0, 4..=6 => rng.below(5000) as u64, 7..=8 => 20_000 + rng.below(80_000) as u64, _ => 150_000 + rng.below(400_000) as u64 } };
         kbd.push((t, e.clone()));
       }
     }
@@ -64,8 +80,9 @@ impl E2ECampaign {
 /// events, or how it cuts the stream into write calls. Whatever a read event that was never
 /// delivered (a phantom) receives is charged to the delivered step before it. Returns per-event
 /// outputs and a note when the read sequence differs from the delivered one.
-pub fn attribute(layout: &Layout, delivered: &[Event], trace: &[Item]) -> (Vec<Vec<Event>>, Option<String>) {
+pub fn attribute(layout: &Layout, delivered: &[Event], trace: &[Item]) -> (Vec<Vec<Event>>, Vec<Vec<Event>>, Option<String>) {
   let mut steps: Vec<Vec<Event>> = vec![vec![]; delivered.len()];
+  let mut chords: Vec<Vec<Event>> = vec![vec![]; delivered.len()];
   let mut note = None;
   // the reads, each tagged with the delivered step it is charged to
   let mut reads: Vec<(Event, usize)> = vec![];
@@ -82,12 +99,15 @@ pub fn attribute(layout: &Layout, delivered: &[Event], trace: &[Item]) -> (Vec<V
         else if note.is_none() { note = Some(format!("the loop read {} where the delivered stream has {}", ev_str(e), delivered.get(next).map(ev_str).unwrap_or("nothing more".into()))); }
         reads.push((e.clone(), cur));
       }
-      Item::Send { evs, .. } => { if !after_timeout { written.extend(evs.iter().cloned()); } } // a batch after a time-out is a timer chord (C11)
+      Item::Send { evs, .. } => {
+        // a batch after a time-out is a timer chord: C11 owns its content, here it only moves the output state
+        if !after_timeout { written.extend(evs.iter().cloned()); } else if let Some(c) = chords.get_mut(cur) { c.extend(evs.iter().cloned()); }
+      }
       _ => {}
     }
   }
   if next < delivered.len() && note.is_none() { note = Some(format!("the loop never read {} (event {} of {})", ev_str(&delivered[next]), next, delivered.len())); }
-  if steps.is_empty() { return (steps, note); }
+  if steps.is_empty() { return (steps, chords, note); }
   let mut reference = crate::key_transforms::Mapper::for_layout(layout);
   let mut pos = 0usize;
   for (ri, (e, charged)) in reads.iter().enumerate() {
@@ -98,15 +118,15 @@ pub fn attribute(layout: &Layout, delivered: &[Event], trace: &[Item]) -> (Vec<V
     pos = end;
   }
   if reads.is_empty() && !written.is_empty() { steps[0].extend(written.iter().cloned()); }
-  (steps, note)
+  (steps, chords, note)
 }
 
 pub fn execute_e(case: &CaseE, en: &En, record: Option<u64>, obs: &mut Obs) -> Result<(Option<Violation>, Outcome), String> {
   let c = case.b.clone();
   let out = catch_unwind(AssertUnwindSafe(|| { let mut bl = crate::wiresim::PipeLayer::new(); crate::loopsim::execute(&c, record, Some(&mut bl)) })).map_err(|e| panic_msg(&e))?;
   let delivered: Vec<Event> = case.a.ops.iter().filter_map(|o| if let Op::Ev(e) = o { Some(e.clone()) } else { None }).collect();
-  let (steps, _note) = attribute(&case.a.layout, &delivered, &out.trace);
-  let mut pre = Precomputed { steps, i: 0 };
+  let (steps, chords, _note) = attribute(&case.a.layout, &delivered, &out.trace);
+  let mut pre = Precomputed { steps, chords, i: 0 };
   let a = case.a.clone(); let en2 = *en;
   let v = catch_unwind(AssertUnwindSafe(|| execute_with(&a, &en2, obs, &mut pre))).map_err(|e| format!("oracle panicked: {}", panic_msg(&e)))?;
   Ok((v, out))
@@ -159,7 +179,7 @@ impl Campaign for E2ECampaign {
     acc.probe_n("real_driver_polls_cross_checked", s.real_polls_compared); acc.probe_n("wakeup_with_two_or_more_events", s.multi_event_wakeups);
     acc.count("steps", obs.steps); acc.count("sim_us", out.sim_us); acc.count("mappings_fired", obs.fired); acc.count("driver_calls", out.trace.len() as u64);
     let delivered: Vec<Event> = case.a.ops.iter().filter_map(|o| if let Op::Ev(e) = o { Some(e.clone()) } else { None }).collect();
-    if attribute(&case.a.layout, &delivered, &out.trace).1.is_some() { acc.count("runs_where_the_read_sequence_differs_from_the_delivered_one", 1); }
+    if attribute(&case.a.layout, &delivered, &out.trace).2.is_some() { acc.count("runs_where_the_read_sequence_differs_from_the_delivered_one", 1); }
     let nt = nontrivial(self.inner.property, &obs);
     let mut hh = H::new(); hh.u(case.a.hash()); hh.u(case.b.hash());
     let sample = if ctx.want_sample { Some(case.json()) } else { None };
